@@ -90,6 +90,14 @@ pub fn families(tier: &str, profile: &str) -> Vec<(Arc<dyn Family>, Option<Vec<(
     if profile == "dev" {
         let (f, labels) = ladder_family(if thorough { None } else { Some(5) }, true);
         v.push((f, Some(labels)));
+        // overflow checks are on in this profile: arithmetic on length/count fields is exercised through a
+        // reduced grammar product, the truncations and the structural deviations
+        let body = if thorough { 16 } else { 3 };
+        v.push((family_a_v9(body), None));
+        v.push((family_a_ipfix(body), None));
+        v.push((family_b_trunc(all_seeds(true, 100_000), 3), None));
+        v.push((family_b_struct(), None));
+        v.push((family_b1(conformant_seeds(), if thorough { 2 } else { 1 }), None));
         return v;
     }
     let body = if thorough { 40 } else { 16 };
@@ -207,7 +215,7 @@ pub fn run(tier: &str) -> i32 {
                 workers: 16,
                 horizon: Duration::from_secs(if profile == "dev" { 180 } else { 60 }),
                 budget: 2 << 30,
-                chunk: if labels.is_some() { 1 } else { (size / 64).clamp(1, 40_000) },
+                chunk: if labels.is_some() { 1 } else { (size / 256).clamp(1, 20_000) },
             };
             let r = run_range(&cfg, &fam.name(), 0, size);
             let sp = SweepSpace { cfg, fam, labels, profile: profile.to_string() };
